@@ -81,6 +81,9 @@ def gen_spec(rng, fmt='NETCDF4', big=0.0):
         for j in range(rng.randrange(0, 4)):
             k = rng.choice(['units', 'long_name', 'scale', 'valid', 'flag', 'arr'])
             v['attrs'][k] = _gen_attr(rng)
+        if dt in ('f4', 'f8') and rng.random() < 0.12:
+            # a descriptive attribute that some writers also understand as a knob
+            v['attrs']['least_significant_digit'] = {'t': 'i4', 'v': rng.choice([1, 2, 3])}
         if dt != 'S1' and rng.random() < 0.35 and n > 0:
             v['mask'] = sorted(set(rng.randrange(n) for _ in range(rng.randrange(0, 4))))
             v['fillkind'] = rng.choice(['fill_value', 'missing_value'])
